@@ -109,6 +109,19 @@ func zzC09_hashers(dataLen int) {
 		_, _ = h.Write(data)
 		d2 := h.SumHash()
 		verifAssert(d.Equal(d2), "one-shot equals streaming")
+		// repeated calls in any order must not panic (the fixed-function hashers document that SumHash updates the
+		// state and that writing afterwards needs a Reset: the VALUES of such calls are unspecified, so only
+		// ComputeHash, which resets, is compared)
+		_ = h.SumHash()
+		_, _ = h.Write(nil)
+		_, _ = h.Write([]byte{})
+		_ = h.SumHash()
+		verifAssert(d.Equal(h.ComputeHash(data)), "ComputeHash after SumHash")
+		verifAssert(d.Equal(h.ComputeHash(data)), "ComputeHash twice")
+		_ = h.SumHash()
+		_ = h.SumHash()
+		_, _ = h.Write(data)
+		_ = h.SumHash()
 		_, _ = d.Hex(), d.String()
 		h.Reset()
 	}
